@@ -10,7 +10,7 @@ from ..terms import show_atom
 
 ID = 'C12'
 LEVEL = 'model_checking'
-RULE = ('every string of length <= 3 [quick: length 3 only in 5 of the 17 positions] over the 18 characters {a Z 0 _ space \' " LF CR # % ( ) , . : é 五} '
+RULE = ('(every payload also at the start, the end and in the middle of a long multi-line text; three neighbouring long texts that cooperate: the first ends and the last starts with 1..3 quote characters of either kind, the middle one is code) ' 'every string of length <= 3 [quick: length 3 only in 5 of the 17 positions] over the 18 characters {a Z 0 _ space \' " LF CR # % ( ) , . : é 五} '
         'plus 30 payloads (Python expressions, statements after a newline, engine/API names, dunder names, each carrying '
         'a unique marker) as a quoted atom in EVERY syntactic position (clause-head name - also in a parenthesised or operator head -, body-goal name, head argument, '
         'goal argument, functor name, list element, directive argument, both sides of =), and 288 generated break-out attempts (quote of either kind + code + closers + comment tail, with and without the other kind of quote), and every hostile identifier as '
@@ -466,6 +466,35 @@ def run_shard(spec):
                 if idx % 3001 == 0:
                     acc.sample({'position': pos, 'source': text}, limit=1)
         if kind == 'payloads':
+            # the same payloads inside LONG, MULTI-LINE texts (a generator that spells long or multi-line
+            # literals differently takes another path): at the start, at the end and in the middle of 80+
+            # characters with a line break; and three neighbouring texts that cooperate - the first ends
+            # with a quote character, the last starts with one, the one between them is the code
+            pad = 'x' * 40 + '\n' + 'y' * 40
+            for s in items:
+                for di, dressed in enumerate((pad + s, s + pad, pad + s + pad)):
+                    qs = quote(dressed)
+                    if qs is None:
+                        continue
+                    for pos, tmpl in (POSITIONS[5], POSITIONS[0], POSITIONS[7], POSITIONS[9], POSITIONS[3]):
+                        idx += 1
+                        if idx % n != k:
+                            continue
+                        text = tmpl.replace('%s', qs)
+                        with watchdog(60):
+                            res = check_program(text)
+                        fold((6, idx), res, {'text': text}, text, 'long-multi-line:' + pos)
+            for e1 in ("'", '"', "''", '"' * 2, "'" * 3, '"' * 3):
+                for e3 in ("'", '"', "''", '"' * 2, "'" * 3, '"' * 3):
+                    for code in (' and zq7() or ', ',zq7,', '+zq7+', ') or zq7((', ' and query.__self__.__dict__.update(zq7=1) or ', ']+[zq7]+[', ':zq7', ' if zq7 else '):
+                        for tmpl in ('p(f(%1, %2, %3)).', 'p(%1, %2, %3) :- q(%1, %2, %3).', 'p([%1, %2, %3]).'):
+                            idx += 1
+                            if idx % n != k:
+                                continue
+                            text = tmpl.replace('%1', quote(pad + e1)).replace('%2', quote(code)).replace('%3', quote(e3 + pad))
+                            with watchdog(60):
+                                res = check_program(text)
+                            fold((7, idx), res, {'text': text}, text, 'cooperating-long-literals')
             # goals whose NAME is taken from the compiler's own internal vocabulary (a quoted atom can
             # spell any name), with hostile arguments
             for nm in INTERNAL_NAMES:
